@@ -174,7 +174,7 @@ func (w *vW) hooks() {
 	// I6 is instantiated lazily, when an inode is first used as a directory
 	for _, f := range []string{"LookupName", "AddName", "RemName", "IsDirEmpty", "Apply", "ApplyEnts", "ScanName", "InitDir"} {
 		verifrt.OnCall("github.com/mit-pdos/go-nfsd/dir."+f, func(dip *inode.Inode) {
-			if dip != nil && !verifrt.Appended() {
+			if dip != nil && !verifrt.Appended() && verifrt.Param("nodirhook", 0) == 0 {
 				for _, seen := range w.dirsDone {
 					if seen == dip {
 						return
